@@ -104,6 +104,24 @@ def _frame(dst, src, length, fill=0):
   return hdr + bytes(((fill + i) & 0xff) for i in range(max(0, length - 14)))
 
 
+# the ten header-rewrite actions of OpenFlow 1.0 (ofp_action_type 1..10): value width in bits, total action length
+_REWRITES = {1: (16, 8), 2: (8, 8), 3: (0, 8), 4: (48, 16), 5: (48, 16), 6: (32, 8), 7: (32, 8), 8: (8, 8), 9: (16, 8), 10: (16, 8)}
+
+
+def _rw_values(bits):
+  if bits == 0:
+    return [0]
+  top = 1 << (bits - 1)
+  return sorted({0, 1, top - 1, top, top + 1, (1 << bits) - 1, 0xc0a80101 & ((1 << bits) - 1), 0x0a000001 & ((1 << bits) - 1)})
+
+
+def _enc_rewrite(atype, value):
+  """["rw", type, value]: a well-formed standard rewrite action, written from openflow.h 1.0 (value left-aligned, zero padding)"""
+  bits, length = _REWRITES[atype]
+  body = value.to_bytes(bits // 8, "big") if bits else b""
+  return cb.action_raw(atype, body + b"\0" * (length - 4 - len(body)))
+
+
 def _enc_actions(acts):
   out = b""
   for a in acts:
@@ -116,6 +134,8 @@ def _enc_actions(acts):
       out += cb.action_raw(a[1])
     elif k == "vendor":
       out += cb.action_vendor(a[1], b"\0" * 8)
+    elif k == "rw":
+      out += _enc_rewrite(a[1], a[2])
     else:
       raise HarnessError("unknown action spec %r" % (a,))
   return out
@@ -1311,9 +1331,23 @@ def _bad_action_on_entry_grid(tier):
         yield [{"o": "flow_mod", "xid": 0x61, "m": 0, "cmd": cmd, "target": target, "cookie": 0x77, "acts": acts}]
 
 
+def _rewrite_action_grid(tier):
+  """every standard rewrite action with every boundary value of its field, installed by a flow-mod and used by a packet-out:
+  the entry must then be reported (flow statistics quote the action list byte for byte) and every later request answered"""
+  for t in range(1, 11):
+    for v in _rw_values(_REWRITES[t][0]):
+      for tail in ([["out", 2, 0]], []) if tier == "thorough" else ([["out", 2, 0]],):
+        acts = [["rw", t, v]] + tail
+        yield [{"o": "flow_mod", "xid": 0x71, "m": 2, "cmd": 0, "prio": 30, "cookie": 0x70 + t, "acts": acts},
+               {"o": "barrier", "xid": 0x72},
+               {"o": "stats", "xid": 0x73, "t": cb.OFPST_FLOW, "m": 0},
+               {"o": "packet_out", "xid": 0x74, "data": [0, 0, 64], "in_port": 1, "acts": acts},
+               {"o": "flow_mod", "xid": 0x75, "m": 1, "cmd": 1, "prio": 10, "acts": acts}]
+
+
 def _enum(tier):
   xids = [0, 1, 0x80000000, 0xffffffff]
-  for grid in (_out_port_grid, _bad_action_on_entry_grid):
+  for grid in (_out_port_grid, _bad_action_on_entry_grid, _rewrite_action_grid):
     for ops in grid(tier):
       for seg in ([], [7, 3]) if tier == "thorough" else ([],):
         yield {"max_buffers": 2, "miss_send_len": 128, "seg": seg, "ops": _OUTPUT_WARMUP + ops + _PROBES}
@@ -1359,8 +1393,19 @@ def _s_acts():
   noport = st.sampled_from([["out", 0, 0], ["out", N_PORTS + 1, 0], ["out", N_PORTS + 2, 0], ["out", cb.OFPP_MAX, 0], ["out", 0xff01, 0],
                             ["out", 0xff42, 0], ["out", 0xfff0, 0], ["out", 0xfff7, 0], ["out", cb.OFPP_NONE, 0],
                             ["enq", 0xff01, 0], ["enq", 0, 1], ["enq", N_PORTS + 1, 2], ["enq", cb.OFPP_MAX, 0], ["enq", 0xfff7, 7]])
-  one = st.one_of(out_valid, out_valid, out_valid, out_valid, virt, virt, ctl, odd, noport)
+  one = st.one_of(out_valid, out_valid, out_valid, out_valid, virt, virt, ctl, odd, noport, _s_rewrite())
   return st.lists(one, min_size=0, max_size=3)
+
+
+def _s_rewrite():
+  """a standard header-rewrite action with a boundary or arbitrary value of its field's width"""
+  @st.composite
+  def rw(draw):
+    t = draw(st.integers(1, 10))
+    bits = _REWRITES[t][0]
+    v = draw(st.one_of(st.sampled_from(_rw_values(bits)), st.integers(0, (1 << bits) - 1))) if bits else 0
+    return ["rw", t, v]
+  return rw()
 
 
 def _s_buf():
@@ -1399,7 +1444,8 @@ def _s_op():
                  acts=_s_acts(), buf=_s_buf())
   good_acts = st.lists(st.one_of(st.integers(1, N_PORTS).map(lambda p: ["out", p, 0]), st.integers(1, N_PORTS).map(lambda p: ["out", p, 0]),
                                  st.sampled_from([["out", cb.OFPP_FLOOD, 0], ["out", cb.OFPP_ALL, 0], ["out", cb.OFPP_IN_PORT, 0],
-                                                  ["out", cb.OFPP_CONTROLLER, 32], ["out", cb.OFPP_CONTROLLER, 0xffff]])), min_size=0, max_size=3)
+                                                  ["out", cb.OFPP_CONTROLLER, 32], ["out", cb.OFPP_CONTROLLER, 0xffff]]),
+                                 _s_rewrite()), min_size=0, max_size=3)
   live = st.one_of(st.none(), st.none(), st.none(), st.integers(0, 3).map(lambda n: {"k": "live?", "i": n}))
   flow_ok = _fd(o=J("flow_mod"), xid=x, m=st.integers(0, 7), cmd=st.sampled_from([0, 0, 0, 0, 1, 2]),
                 prio=st.sampled_from([0, 1, 100, 0x8000, 0xffff]), cookie=st.sampled_from([0, 1, 0xdeadbeef, 0xffffffffffffffff]),
